@@ -30,6 +30,9 @@ func runC05(c *mon.Ctx) {
 		if i%4 == 3 {
 			invalidTwinsCase(c, r.Fork(13), "delivered-under-other-identity/invalid-bytes", true)
 		}
+		if i%4 == 0 {
+			c05SnapshotVandal(c, r.Fork(14))
+		}
 	})
 }
 
@@ -568,4 +571,51 @@ func c05KeyFn(c *mon.Ctx, r *mon.Rand) {
 		}
 	})
 	c.Distinct(mon.Hash64(prefix, fmt.Sprint(maps)))
+}
+
+// c05SnapshotVandal: what a test scope's snapshot hands out belongs to the
+// caller. Rewriting the tag maps of snapshot entries (so that one scope's tags
+// read like its sibling's) must leave the identities of the live scopes alone:
+// the same derivations still return the same, distinct scopes, and what is
+// recorded afterwards shows up under each scope's own tags.
+func c05SnapshotVandal(c *mon.Ctx, r *mon.Rand) {
+	v1, v2 := "v"+r.Ident(3), "w"+r.Ident(3)
+	ts := vNewTest(r.Pick("", "p"), nil, uint(r.Range(0, 3)))
+	desc := map[string]interface{}{"scenario": "snapshot tag maps rewritten by the caller", "values": []string{v1, v2}}
+	c.Eval(1)
+	c.Guard("panic-snapshot-vandal", func() interface{} { return desc }, func() {
+		a := ts.Tagged(map[string]string{"k": v1})
+		b := ts.Tagged(map[string]string{"k": v2})
+		a.Counter("m").Inc(1)
+		b.Counter("m").Inc(2)
+		a.Gauge("g").Update(1)
+		snap := ts.Snapshot()
+		for _, cs := range snap.Counters() {
+			for k := range cs.Tags() {
+				cs.Tags()[k] = v2
+			}
+			cs.Tags()["added"] = "x"
+		}
+		for _, gs := range snap.Gauges() {
+			for k := range gs.Tags() {
+				gs.Tags()[k] = v2
+			}
+		}
+		a2 := ts.Tagged(map[string]string{"k": v1})
+		b2 := ts.Tagged(map[string]string{"k": v2})
+		if a2 != a || b2 != b || a == b {
+			c.Violation("identity-changed-by-snapshot-edit", map[string]interface{}{"why": "after the caller rewrote the tag maps of snapshot entries, deriving the same tag sets again no longer returns the same two distinct scopes", "case": desc})
+		}
+		a2.Counter("m").Inc(10)
+		b2.Counter("m").Inc(20)
+		got := map[string]int64{}
+		for _, cs := range ts.Snapshot().Counters() {
+			got[fmt.Sprint(cs.Tags())] += cs.Value()
+		}
+		wa, wb := fmt.Sprint(map[string]string{"k": v1}), fmt.Sprint(map[string]string{"k": v2})
+		if got[wa] != 11 || got[wb] != 22 || len(got) != 2 {
+			c.Violation("identity-changed-by-snapshot-edit", map[string]interface{}{"why": fmt.Sprintf("after the caller rewrote the tag maps of an earlier snapshot, a new snapshot shows counters per tag set %v, want %s:11 and %s:22", got, wa, wb), "case": desc})
+		}
+	})
+	c.Event("snapshot-edits-checked", 1)
 }
